@@ -4,6 +4,8 @@
 //  upd <variant> <failk> <seed> <hex>  -> "<update_ret> <allocs_in_update> <final_ret> <decodes_to_input> <live> <bad_free> <n_updates_ok>"
 //  idx <op> <m> <failk>                -> "<ret> <allocs_in_op> <unchanged> <live> <bad_free>"
 //  flt <op> <failk> <filter string>    -> "<ret> <allocs_in_op> <caller_objects_unchanged> <live> <bad_free>"
+//  buf <which> <failk> <bad> <hex>     -> same; which: 0 stream_buffer_encode 1 raw_buffer_encode 2 block_buffer_encode 3 easy_buffer_encode
+//                                         4 stream_buffer_decode 5 raw_buffer_decode 6 block_buffer_decode; bad=1: options that must be refused
 #include "lzma.h"
 #include <stdio.h>
 #include <stdlib.h>
@@ -215,6 +217,48 @@ static void do_flt(unsigned op, size_t failk, const char *str)
 	printf("%d %zu %d %zu %zu\n", ret, a1 - a0, unchanged, live_bytes, bad_free);
 }
 
+// single-call ("buffer") functions with the k-th allocation failing, or with options they must refuse: the positions the
+// caller passed in (*in_pos, *out_pos) and the output pointer (*i for the Index decoder) must be what they were
+static void do_buf(unsigned which, size_t failk, unsigned bad, const uint8_t *in, size_t n)
+{
+	lzma_options_lzma o; lzma_lzma_preset(&o, 0); o.dict_size = 1 << 16; if (bad) { o.lc = 3; o.lp = 3; }   // lc + lp > 4: refused
+	lzma_options_delta od = { .type = LZMA_DELTA_TYPE_BYTE, .dist = 2 };
+	lzma_filter f[3] = { { LZMA_FILTER_DELTA, &od }, { LZMA_FILTER_LZMA2, &o }, { LZMA_VLI_UNKNOWN, NULL } };
+	static uint8_t enc[1 << 20], outb[1 << 20];
+	// a valid encoded form of the input for the decoder cases (made without failures)
+	size_t el = 0; lzma_options_lzma og; lzma_lzma_preset(&og, 0); og.dict_size = 1 << 16;
+	lzma_filter fg[3] = { { LZMA_FILTER_DELTA, &od }, { LZMA_FILTER_LZMA2, &og }, { LZMA_VLI_UNKNOWN, NULL } };
+	lzma_block bg; memset(&bg, 0, sizeof bg); bg.version = 1; bg.check = LZMA_CHECK_CRC32; bg.filters = fg;
+	switch (which) {
+	case 4: if (lzma_stream_buffer_encode(fg, LZMA_CHECK_CRC32, NULL, in, n, enc, &el, sizeof enc) != LZMA_OK) { printf("SETUPERR\n"); return; } break;
+	case 5: if (lzma_raw_buffer_encode(fg, NULL, in, n, enc, &el, sizeof enc) != LZMA_OK) { printf("SETUPERR\n"); return; } break;
+	case 6: if (lzma_block_buffer_encode(&bg, NULL, in, n, enc, &el, sizeof enc) != LZMA_OK) { printf("SETUPERR\n"); return; } break;
+	}
+	const size_t ip0 = 3, op0 = 7; size_t ip = ip0, op = op0; lzma_ret r = LZMA_PROG_ERROR; int same = 1;
+	lzma_block b; memset(&b, 0, sizeof b); b.version = 1; b.check = LZMA_CHECK_CRC32; b.filters = f;
+	size_t a0 = allocs_now(); set_fail(failk);
+	switch (which) {
+	case 0: r = lzma_stream_buffer_encode(f, LZMA_CHECK_CRC32, &al, in, n, outb, &op, sizeof outb); break;
+	case 1: r = lzma_raw_buffer_encode(f, &al, in, n, outb, &op, sizeof outb); break;
+	case 2: r = lzma_block_buffer_encode(&b, &al, in, n, outb, &op, sizeof outb); break;
+	case 3: r = bad ? LZMA_OPTIONS_ERROR : lzma_easy_buffer_encode(1, LZMA_CHECK_CRC64, &al, in, n, outb, &op, sizeof outb); break;
+	case 4: { uint64_t ml = UINT64_MAX; static uint8_t sh[1 << 20]; memcpy(sh + ip0, enc, el); r = lzma_stream_buffer_decode(&ml, 0, &al, sh, &ip, ip0 + el, outb, &op, sizeof outb); break; }
+	case 5: { static uint8_t sh[1 << 20]; memcpy(sh + ip0, enc, el); r = lzma_raw_buffer_decode(f, &al, sh, &ip, ip0 + el, outb, &op, sizeof outb); break; }
+	case 6: { static uint8_t sh[1 << 20]; memcpy(sh + ip0, enc, el); b = bg; b.filters = bad ? f : fg; b.header_size = lzma_block_header_size_decode(enc[0]);
+		lzma_filter df[LZMA_FILTERS_MAX + 1]; lzma_block d; memset(&d, 0, sizeof d); d.version = 1; d.check = LZMA_CHECK_CRC32; d.filters = df; d.header_size = b.header_size;
+		if (lzma_block_header_decode(&d, NULL, enc) != LZMA_OK) { r = (lzma_ret)77; break; }
+		if (bad) { ((lzma_options_lzma *)df[1].options)->lc = 3; ((lzma_options_lzma *)df[1].options)->lp = 3; }
+		ip = ip0 + d.header_size; size_t ipb = ip;
+		r = lzma_block_buffer_decode(&d, &al, sh, &ip, ip0 + el, outb, &op, sizeof outb);
+		if (r != LZMA_OK && ip != ipb) same = 0; ip = r == LZMA_OK ? ip : ip0;
+		lzma_filters_free(df, NULL); break; }
+	}
+	set_fail(0); size_t a1 = allocs_now();
+	if (r != LZMA_OK && (ip != ip0 || op != op0)) same = 0;
+	if (r == LZMA_OK && which <= 3 && op == op0) same = 0;
+	printf("%d %zu %d %zu %zu\n", (int)r, a1 - a0, same, live_bytes, bad_free);
+}
+
 int main(void)
 {
 	static char line[1 << 23]; static uint8_t in[1 << 22];
@@ -225,7 +269,10 @@ int main(void)
 			size_t n = 0; for (char *h = line + off; h[0] && h[1] && h[0] != '\n'; h += 2) in[n++] = (uint8_t)(hexv(h[0]) << 4 | hexv(h[1]));
 			do_upd(a, (size_t)k, b, in, n);
 		} else if (sscanf(line, "idx %u %u %llu", &a, &b, &k) == 3) do_idx(a, b, (size_t)k);
-		else if (sscanf(line, "flt %u %llu %n", &a, &k, &off) >= 2) { char *nl = strchr(line + off, '\n'); if (nl) *nl = 0; do_flt(a, (size_t)k, line + off); }
+		else if (sscanf(line, "buf %u %llu %u %n", &a, &k, &b, &off) >= 3) {
+			size_t n = 0; for (char *h = line + off; h[0] && h[1] && h[0] != '\n'; h += 2) in[n++] = (uint8_t)(hexv(h[0]) << 4 | hexv(h[1]));
+			do_buf(a, (size_t)k, b, in, n);
+		} else if (sscanf(line, "flt %u %llu %n", &a, &k, &off) >= 2) { char *nl = strchr(line + off, '\n'); if (nl) *nl = 0; do_flt(a, (size_t)k, line + off); }
 		else printf("ERR\n");
 		alarm(0); fflush(stdout);
 	}
